@@ -114,6 +114,15 @@ func C39(e *simkern.Env) {
 		closeAfter = nRec - tp.Draw(nRec+1)
 	}
 	closeTwice := tp.Bool(1, 4)
+	// async only, one run in three: the operator re-configures async emission
+	// (SetAsync again, another queue size) in the middle of the history; the
+	// replaced emitter is closed by that call, the replacement goes on
+	reconf := mode == 0 && tp.Bool(1, 3)
+	reconfAfter, queue2 := 0, 0
+	if reconf {
+		reconfAfter = tp.Draw(closeAfter + 1)
+		queue2 = 1 + tp.Draw(6)
+	}
 	startStalled := tp.Bool(1, 2)
 	e.Knob("mode", []string{"async", "sample", "sample+async"}[mode])
 	e.Knob("queue", queue)
@@ -121,6 +130,10 @@ func C39(e *simkern.Env) {
 	e.Knob("emitters", nEmit)
 	e.Knob("records", nRec)
 	e.Knob("close_after", closeAfter)
+	if reconf {
+		e.Knob("setasync_again_after", reconfAfter)
+		e.Knob("queue2", queue2)
+	}
 
 	var sample []string
 	left := e.Bubble(func() {
@@ -164,6 +177,20 @@ func C39(e *simkern.Env) {
 			}
 		}
 
+		reconfEntered, reconfReturned, swapTick := 0, 0, 0
+		var emitterBefore uintptr
+		if reconf {
+			sim.Spawn("operator", func() {
+				sim.Yield("operator.wait", func() bool { return nLeft >= reconfAfter })
+				emitterBefore = vgirpc.VerifAccessLogEmitter(hook)
+				reconfEntered = next()
+				sim.Fault("async-reconfigured")
+				if err := hook.SetAsync(queue2); err != nil {
+					e.Harness("SetAsync(%d) again: %v", queue2, err)
+				}
+				reconfReturned = next()
+			})
+		}
 		var closerTask *simkern.Task
 		for i := 0; i < nEmit; i++ {
 			i := i
@@ -204,7 +231,7 @@ func C39(e *simkern.Env) {
 			})
 		}
 		closerTask = sim.Spawn("closer", func() {
-			sim.Yield("closer.wait", func() bool { return nLeft >= closeAfter })
+			sim.Yield("closer.wait", func() bool { return nLeft >= closeAfter && (!reconf || reconfReturned != 0) })
 			closeEntered = next()
 			_ = hook.Close()
 			closeReturned = next()
@@ -231,6 +258,11 @@ func C39(e *simkern.Env) {
 				return []simkern.Action{{Name: "stall log", Weight: 3, Do: func() { w.Stalled = true }}}
 			},
 			Check: func() error {
+				if reconf && reconfEntered != 0 && swapTick == 0 && vgirpc.VerifAccessLogEmitter(hook) != emitterBefore {
+					// only the operator ran in the step just taken: this is the
+					// instant the hook switched to the replacement emitter
+					swapTick = next()
+				}
 				if asyncOn && closeEntered != 0 && closeReturned == 0 && !e.Violated() {
 					// Close is draining. An emit call that had picked up the async
 					// emitter before Close swapped it out is still an enqueue and
@@ -291,7 +323,10 @@ func C39(e *simkern.Env) {
 			reason = simkern.StopDone
 		}
 		if reason == simkern.StopDone && !e.Violated() {
-			c39Judge(e, sim, mode, rate, recs, order, lines, closeEntered, closeReturned, snapLines)
+			if reconf && swapTick == 0 {
+				e.Harness("C39: SetAsync was called again but the hook's emitter never changed")
+			}
+			c39Judge(e, sim, mode, rate, recs, order, lines, closeEntered, closeReturned, snapLines, swapTick)
 		}
 		e.Conclude(sim, reason, false)
 		nW, nDrop := 0, 0
@@ -319,7 +354,7 @@ func C39(e *simkern.Env) {
 // returned, which (only one task runs at a time, and an emitter does not reach
 // another scheduling point between the queue operation and its return) is the
 // order of the enqueue decisions.
-func c39Judge(e *simkern.Env, sim *simkern.Sim, mode int, rate float64, recs, order []*c39Rec, lines []*alogw.Line, closeEntered, closeReturned, snapLines int) {
+func c39Judge(e *simkern.Env, sim *simkern.Sim, mode int, rate float64, recs, order []*c39Rec, lines []*alogw.Line, closeEntered, closeReturned, snapLines, swapTick int) {
 	asyncOn := mode != 1
 	sampling := mode != 0 && rate < 1.0
 	byUID := map[string]*c39Rec{}
@@ -455,6 +490,71 @@ func c39Judge(e *simkern.Env, sim *simkern.Sim, mode int, rate float64, recs, or
 		}
 		return "[" + strings.Join(s, " ") + "]"
 	}
+	if mode == 0 && swapTick != 0 {
+		// Two emitters, one after the other. A record whose emit call returned
+		// before the swap went to the first, one whose emit call began after
+		// it to the second; a call that spans the swap may have gone to either
+		// (it picked up the emitter at some point inside the call). Per
+		// emitter, in enqueue order: a written record reports exactly the
+		// records of that emitter lost since that emitter's previous written
+		// record; spanning records widen the bounds instead of being guessed.
+		// The first emitter was closed by SetAsync: its trailing run is the
+		// exception the property names, and so is the second's.
+		class := func(r *c39Rec) int {
+			switch {
+			case r.left < swapTick:
+				return 1
+			case r.entered > swapTick:
+				return 2
+			}
+			return 0
+		}
+		for k := 1; k <= 2; k++ {
+			var lo, hi int64
+			var certain, maybe []*c39Rec
+			for _, r := range order {
+				if !inP(r) {
+					continue
+				}
+				cl := class(r)
+				if cl != k && cl != 0 {
+					continue
+				}
+				if cl == 0 {
+					sim.Probe("emit-spans-reconfiguration")
+				}
+				if r.line == nil {
+					hi++
+					if cl == k {
+						lo++
+						certain = append(certain, r)
+					} else {
+						maybe = append(maybe, r)
+					}
+					continue
+				}
+				var d int64
+				if n, ok := alogw.Int(r.line.Obj, "dropped_records"); ok {
+					d = n
+				}
+				if cl == 0 {
+					lo, certain = 0, nil // it may have reported them
+					continue
+				}
+				sim.ProbeN(fmt.Sprintf("queue-full-drop-emitter%d", k), len(certain))
+				if d < lo {
+					e.Violate("drop-not-reported", "dropped_records", "async emission re-configured during the run: %d record(s) %s were handed to emitter %d after its previous written record and before %s and never written, but %s reports dropped_records=%d", lo, names(certain), k, r, r, d)
+					return
+				}
+				if d > hi {
+					e.Violate("drop-overreported", "dropped_records", "async emission re-configured during the run: record %s (emitter %d) reports dropped_records=%d but at most %d record(s) %s %s were lost on that emitter since its previous written record", r, k, d, hi, names(certain), names(maybe))
+					return
+				}
+				lo, hi, certain, maybe = 0, 0, nil, nil
+			}
+		}
+		return
+	}
 	if mode == 0 {
 		for _, c := range cons {
 			sim.ProbeN("queue-full-drop", len(c.gap))
@@ -583,11 +683,11 @@ func init() {
 	Registry["C39"] = &Info{
 		Run:   C39,
 		Level: "exploration",
-		Rule:  "each run draws a mode (async only / sampling only / both), queue size 1-8, a sample rate from {0,.01,.1,.25,.5,.75,.9,.99,1}, 1-4 emitter tasks, 4-20 records (unary with own request id, stream members sharing one of 0-3 stream ids, records with no identifier, retried request ids; 1 in 4 an error) and the point after which a closer task calls Close (once or twice); emitters call the real AccessLogHook.OnDispatchEnd, the real writer goroutine (woven go statement) drains the real queue into a harness log file that the scheduler stalls and releases; the tape interleaves emitters, writer, closer and stall/unstall at every woven synchronisation point; distinct = distinct schedule fingerprint; non-trivial = two tasks were runnable at once or a record did not reach the log",
+		Rule:  "each run draws a mode (async only / sampling only / both), queue size 1-8, a sample rate from {0,.01,.1,.25,.5,.75,.9,.99,1}, 1-4 emitter tasks, 4-20 records (unary with own request id, stream members sharing one of 0-3 stream ids, records with no identifier, retried request ids; 1 in 4 an error) and the point after which a closer task calls Close (once or twice); in a third of the async-only runs an operator task calls SetAsync again (another queue size) at a drawn point of the history, which closes the first emitter and installs a second (the instant of the swap is observed, records are attributed to an emitter by whether their emit call ended before or began after it, calls spanning it widen the bounds); emitters call the real AccessLogHook.OnDispatchEnd, the real writer goroutine (woven go statement) drains the real queue into a harness log file that the scheduler stalls and releases; the tape interleaves emitters, writer, closer and stall/unstall at every woven synchronisation point; distinct = distinct schedule fingerprint; non-trivial = two tasks were runnable at once or a record did not reach the log",
 		Real:  []string{"vgirpc.AccessLogHook (OnDispatchStart/End, emit, writeRecord, SetSampleRate, SetAsync, Close)", "vgirpc.accessLogSampler", "vgirpc.asyncEmitter incl. its writer goroutine", "testing/synctest clock"},
 		Stub:  []string{"log file (harness io.Writer that yields and stalls)", "dispatches (emitter tasks call the hook with synthesised DispatchInfo)"},
 		Quick: 6000, Thorough: 300000,
-		FaultKinds: []string{"writer-stall"},
+		FaultKinds: []string{"writer-stall", "async-reconfigured"},
 		Assumptions: []string{
 			"while Close is draining, an emit call that had loaded the async emitter before Close swapped it out is still an enqueue and is held to the never-blocks clause (judged when it is parked inside the emitter, cannot proceed, and nothing can move until the stalled file is released); emit calls that start after the swap are synchronous and may wait for the file",
 			"'enqueued before close' = the emit call had returned before Close was entered; records whose emit call overlaps or follows Close are unconstrained (they may be written, counted or discarded)",
@@ -596,6 +696,7 @@ func init() {
 			"'all kept or all dropped' is applied to the non-error records of one identifier, since error records are always kept",
 			"with sampling and async emission both on, a missing record's fate (sampled out vs dropped by the queue) is not observable per record; the oracle demands that some all-or-nothing assignment per sampling identifier explains every dropped_records stamp exactly (exact accounting is decided in the async-only mode, exact sampling clauses in the sampling-only mode)",
 			"the statistical accuracy of the sample rate is not checked",
+			"an emitter replaced by a second SetAsync is 'closed' in the property's sense: its trailing run of drops is the named exception, and the replacement's accounting starts at zero",
 		},
 	}
 }
